@@ -166,8 +166,9 @@ type Result struct {
 	Notes              []string       `json:"notes"`
 	WallS              float64        `json:"wall_s"`
 
-	seen  map[[32]byte]bool
-	start time.Time
+	seen   map[[32]byte]bool
+	perKey map[string]int
+	start  time.Time
 }
 
 func NewResult(prop string, seed int64, tier string) *Result {
@@ -199,7 +200,14 @@ func (r *Result) Mismatch(m Mismatch) {
 	if len(m.Detail) > 2000 {
 		m.Detail = m.Detail[:2000] + "…"
 	}
-	if len(r.Mismatches) < 200 {
+	// keep at most 8 mismatches per (key, kind) so that one frequent key cannot crowd out the others
+	if r.perKey == nil {
+		r.perKey = map[string]int{}
+	}
+	k := m.Key + "/" + m.Kind
+	r.perKey[k]++
+	r.Distribution["mismatch:"+k]++
+	if r.perKey[k] <= 8 && len(r.Mismatches) < 600 {
 		r.Mismatches = append(r.Mismatches, m)
 	}
 }
